@@ -47,6 +47,14 @@ func (r *Eval) Run(ctx context.Context, script []byte) (Object, *Bytecode, error
 	bytecode, err := compileScript(script, &r.Opts, &r.moduleStore)
 	if err != nil {
 		r.moduleStore = modules
+		// The constants of the failed compilation are dropped as well: a
+		// global declared by it gets its name constant again next time.
+		r.Opts.SymbolTable.Range(true, func(s *Symbol) bool {
+			if s.Scope == ScopeGlobal && s.Index >= len(r.Opts.Constants) {
+				s.Index = -1
+			}
+			return true
+		})
 		return nil, nil, err
 	}
 
